@@ -10,7 +10,7 @@ HARNESS = "harness/C20.c"
 SRCS = None
 EXCLUDE = ["term.c"]           # harness/C20.c includes it to read the private held-button field
 EXTRA_LD = ["-Wl,--wrap=gettimeofday"]
-LEVEL = "partial"
+LEVEL = "proof"      # evidence category; partial overall, see ASSUMPTIONS[0] and notes
 CASE_TIMEOUT = 0.05
 RULE = ("case = (termtype, byte stream, cut offsets, keys the system's libtermkey finds in the whole stream).  Streams are "
         "concatenations of: ASCII and multi-byte UTF-8 text, C0 keys, Alt-prefixed keys, cursor / function / editing keys with "
@@ -22,7 +22,8 @@ RULE = ("case = (termtype, byte stream, cut offsets, keys the system's libtermke
         "chunks with no time-out in between; observation = every key / mouse event, the final time-out state and held-button "
         "mask.  Non-trivial = at least one event and at least one cut; distinct = distinct (termtype, multiset of key types, "
         "whether a cut falls inside a multi-byte key, number of held buttons seen, long stream).")
-ASSUMPTIONS = ["libtermkey is trusted as the tokenizer (the property says so); the model assumes of it only prefix stability (a key "
+ASSUMPTIONS = ["PARTIAL by nature: Tickit's side is proved for every tokenizer meeting the hypotheses stated next; libtermkey itself is trusted (the property says so)",
+               "libtermkey is trusted as the tokenizer (the property says so); the model assumes of it only prefix stability (a key "
                "found in a buffer is found, with the same length, in every extension of the buffer) and that nothing is consumed "
                "without a key; both are also tested here, because the model is fed the keys of the WHOLE stream",
                "no inter-byte time-out is forced between chunks (the property's own condition); the clock is frozen",
